@@ -128,6 +128,7 @@ class Analyzer:
         self.content_reads = 0
         self.weakened = set()  # (array, 'lo'|'hi') that an element write could not be shown to preserve
         self.lemmas = []  # lemma instances used in the prelude (reported)
+        self._opaque_cond = False
 
     # ---------------- expressions
     def is_counter_type(self, t):
@@ -226,6 +227,11 @@ class Analyzer:
             try:
                 a, b = self.lin(n.operand1), self.lin(n.operand2)
             except Unknown:
+                # a comparison of two ELEMENT values is a free data test (either outcome is possible for some input); any
+                # other comparison the linear domain cannot read (a Python object's shape, `is None`, ...) constrains the
+                # sizes in a way that is lost here: a counterexample found below it is not believed
+                if not (self._elem_typed(n.operand1) and self._elem_typed(n.operand2)):
+                    self._opaque_cond = True
                 return ([[]], [[]])
             one = Lin.const(1)
             op = n.operator
@@ -245,7 +251,14 @@ class Analyzer:
             x = Lin.var(n.name)
             zero, one = Lin.const(0), Lin.const(1)
             return ([[(x + one).le(zero)], [one.le(x)]], [[x.le(zero), zero.le(x)]])
+        self._opaque_cond = True
         return ([[]], [[]])
+
+    def _elem_typed(self, e):
+        while tname(e) in ("CoerceToTempNode", "CloneNode", "TypecastNode", "CoerceToPyTypeNode", "CoerceFromPyTypeNode") and (hasattr(e, "arg") or hasattr(e, "operand")):
+            e = e.arg if hasattr(e, "arg") else e.operand
+        t = str(getattr(e, "type", "")).replace("const ", "")
+        return t in ("uint32", "uint32_t", "unsigned int", "uint64", "uint64_t", "unsigned long", "uint16", "uint8") and tname(e) in ("NameNode", "MemoryViewIndexNode")
 
     # ---------------- obligations
     def mv_nodes(self, n, acc):
@@ -448,9 +461,17 @@ class Analyzer:
             cur = states
             for cl in n.if_clauses:
                 self.check_cond(cl.condition, cur)
+                self._opaque_cond = False
                 tdnf, fdnf = self.cond_cases(cl.condition)
                 cur = self.attach(cur)  # facts about values read in the condition hold on both branches
                 cur = self.taint_split(cur, tdnf, fdnf)
+                if self.cex and self._opaque_cond:
+                    tainted = []
+                    for st in cur:
+                        st2 = St.of(list(st), st)
+                        st2.tainted = True
+                        tainted.append(st2)
+                    cur = tainted
                 lab = "L%d:T" % cl.pos[1]
                 tst = self.split(cur, tdnf, lab)
                 o, b = self.exec(cl.body, tst)
